@@ -178,6 +178,15 @@ def sequences(tier, w, deep=True):
                     yield (l, r, sg, a)
                 for r2 in first_runs:
                     yield (l, r, sg, r2)
+    # a segment that starts inside the flat window and ends far above it, declared BEFORE the first run (the flat array is built with it)
+    straddle = [i for i, nm in enumerate(names) if nm.startswith('add_segment(') and any(nm.startswith(f'add_segment({s},') for s in
+                (4, (1 << 14) - 2, 1 << 14, (1 << 16) - 2, (1 << 23) - 2)) and nm.split(',')[1].rstrip(')') in (str((1 << 14) + 2), str(1 << 40), str(1 << 63))]
+    for l in first_loads:
+        for sg in straddle:
+            for r in first_runs:
+                yield (l, sg, r)
+                for a in accs[::3]:
+                    yield (l, sg, r, a)
     if tier == 'thorough':
         for l in loads:
             for r in runs[::3]:
